@@ -93,4 +93,50 @@ CLAIMS = {
         note='Not decided: string options and quoting (the known defect D4: save_option_file writes strings unescaped), custom keyword and '
              'file_ext directives, whole-file idempotence of --update-config, behavioural equivalence.',
         design_ref='DESIGN.md section 4, C15'),
+    'C13': dict(
+        text='Bounded model checking of the real in-place protocol (do_source_file, load_mem_file, file_content_matches, make_folders, '
+             'backup_copy_file, backup_create_md5_file) over an in-memory libc model in which EVERY file operation is a crash point and a '
+             'fault point (fopen NULL, write failing after k bytes, short fwrite, fclose losing the unflushed tail, rename/unlink/stat '
+             'failing): for all contents within the bound, at every termination (return, exit, crash) the target holds the complete '
+             'original or the complete formatted bytes; unless --no-backup, a replaced target implies a backup equal to the original; '
+             'success is reported only if the target holds the formatted bytes. Crash points and fault schedules are solver variables.',
+        note='Bounds: quick contents of 1 byte, one crash point or one fault per run, modes concrete per instance; thorough contents <=3 bytes, '
+             'crash + fault and fault pairs. Stubs: formatter writes an arbitrary fixed byte string (or fails), MD5 abstract injective digest, '
+             'libc = harness/vp_fsmodel.h. Found and fixed: D3 (write errors ignored), D9 (backup fclose ignored).',
+        design_ref='DESIGN.md section 4, C13'),
+    'C14': dict(
+        text='One inductive step of the backup protocol by bounded model checking of the real code over the file-system model: from an '
+             'ARBITRARY state in which the md5 side file is absent or records some content X (and any stale backup/temp files), a --replace '
+             'run leaves the md5 file describing exactly the content written, backs up the text found iff it differs from the recorded '
+             'content (user edit or first run), and otherwise leaves the backup untouched. One step from an arbitrary invariant state covers '
+             'histories of any length.',
+        note='Bounds: quick contents of 1 byte, thorough <=3 bytes. Abstract injective MD5 assumed; hex formatting/parsing of the md5 file is '
+             'the real code. Found and fixed: D2 (md5 taken before the rename). Not decided: crash points inside the step for the md5 record.',
+        design_ref='DESIGN.md section 4, C14'),
+    'C12': dict(
+        text='Bounded model checking of the real comparison and of do_source_file in --check / --if-changed mode over the file-system model: '
+             'bout_content_matches is byte equality for all inputs of the given lengths and prints FAIL/PASS consistently; --check performs no '
+             'file-system mutation and opens nothing for writing, and counts a failure exactly when the bytes differ; --if-changed writes '
+             'nothing when the bytes are equal and otherwise delivers exactly the formatted bytes.',
+        note='Bounds: contents <=2 bytes (quick), <=3 (thorough); modes concrete per instance. Not decided: main() exit status computation and '
+             'its rejection of --check with output options.',
+        design_ref='DESIGN.md section 4, C12'),
+    'C10': dict(
+        text='Bounded model checking of the delivery funnel (real do_source_file/load_mem_file over the file-system model, formatter stubbed as '
+             'writer of an arbitrary fixed byte string): in every output mode (in place with/without backup, -o, stdout) x --if-changed the '
+             'formatter is run once on exactly the bytes of the file and its bytes arrive unmodified at the target; the source is untouched '
+             'when output goes elsewhere.',
+        note='Bounds: contents <=2 bytes. Not decided: main() argument dispatch, stdin delivery, observer options (-p, -L, --dump-steps), '
+             'environment/locale/ASLR independence (no solver formulation).',
+        design_ref='DESIGN.md section 4, C10'),
+    'C19': dict(
+        text='Bounded model checking of the WHOLE real decision function do_space() (3 400 source lines): on a four-chunk neighbourhood with '
+             'every token kind, parent kind, flag valuation and level symbolic, and every option it reads an independent symbolic value, the '
+             'value returned at each of the ~300 rule sites that log the name of an IARF option equals the configured value of that very '
+             'option (one assertion per site, generated from the source on every run) - except at the protection sites the statement '
+             'exempts, where it may only be strengthened. Returning another option's value is caught for some valuation.',
+        note='Bound: one neighbourhood of 4 chunks, texts of 1 (quick) / 2 (thorough) characters. The two table fall-back scans at the end of '
+             'do_space are cut by a mechanical source patch (they return constants under non-option names). Not decided: application to '
+             'columns (space_text), the fusion guard, later passes.',
+        design_ref='DESIGN.md section 4, C19'),
 }
